@@ -23,6 +23,15 @@ def gen_encdec(chk, reg, names, per_len, per_len_var):
                         op = f"{d} {e['name']} {hx(k)} {hx(b)}"
                         ops.append(op)
                         chk.case((e["name"], d, hx(k), hx(b)), nontrivial=any(k), sample=op if r.below(700) == 0 else None)
+            # the same cipher through the OTHER constructor: `KeyInit::new` on the fixed-size key (types may implement it
+            # separately from `new_from_slice` — seeded `C09-xtea-new-be-words`: `new` loaded the key words big-endian, every line
+            # above goes through `new_from_slice`); probe = 4 fixed blocks encrypted and decrypted, compared with the model
+            if L == e["ks"] and L > 0:
+                for i in range(max(2, (per_len if len(lens) == 1 else per_len_var) // 8)):
+                    k = r.structured(L) if i % 2 else r.bytes(L)
+                    op = f"probefixed {e['name']} {hx(k)}"
+                    ops.append(op)
+                    chk.case((e["name"], "probefixed", hx(k)), nontrivial=any(k))
             # the same function through the multi-block / out-of-place entry points ("computes X" holds for whichever call
             # shape reaches the cipher): batches around the parallel widths, all blocks different, rotating shapes and offsets
             hot = e["name"].startswith(("Aes", "Kuz"))
